@@ -104,7 +104,7 @@ Proof. unfold release_primary. destruct (holds _ _); cbn; tauto. Qed.
 Lemma step_log s e s' c : step s e = (s', c) ->
   plog s' = plog s \/ exists x, plog s' = x :: plog s /\ extends (plog s) x = true.
 Proof.
-  destruct e as [id d|post| |post d|sent| |id post]; cbn [step].
+  destruct e as [id d|post| |post d|sent| |id post|post d| ]; cbn [step]; unfold restart.
   - destruct (grant s id) as [s1 r] eqn:Eg. apply grant_spec in Eg. destruct Eg as [Ep _].
     destruct r as [l|]; [|intros H; inversion H; subst; left; exact Ep].
     destruct (negb d); [intros H; inversion H; subst; left; exact Ep|].
@@ -125,6 +125,12 @@ Proof.
   - destruct (forward s id _) as [s1 ok] eqn:Ef. destruct ok; intros H; inversion H; subst.
     + apply forward_spec in Ef. destruct Ef as [_ [Hx [Hp _]]]. right; eexists; split; [exact Hp|exact Hx].
     + apply forward_refused in Ef. subst. left; reflexivity.
+  - destruct (rlock s) as [[id g]|]; [|intros H; inversion H; subst; left; reflexivity].
+    destruct (forward s id _) as [s1 ok] eqn:Ef. destruct ok.
+    + apply forward_spec in Ef. destruct Ef as [_ [Hx [Hp _]]].
+      destruct d; cbn [negb]; intros H; inversion H; subst; cbn; right; eexists; (split; [exact Hp|exact Hx]).
+    + apply forward_refused in Ef. subst s1. cbn [negb]. intros H; inversion H; subst. left; reflexivity.
+  - intros H; inversion H; subst; left; reflexivity.
 Qed.
 
 (* the replica's log: unchanged, or extended by the very entry the primary accepted *)
@@ -132,7 +138,7 @@ Lemma step_rlog s e s' c : step s e = (s', c) ->
   (rlog s' = rlog s) \/
   (exists x, rlog s' = x :: rlog s /\ plog s' = x :: plog s /\ extends (rlog s) x = true /\ extends (plog s) x = true).
 Proof.
-  destruct e as [id d|post| |post d|sent| |id post]; cbn [step].
+  destruct e as [id d|post| |post d|sent| |id post|post d| ]; cbn [step]; unfold restart.
   - destruct (grant s id) as [s1 r] eqn:Eg. apply grant_spec in Eg. destruct Eg as [_ [Er _]].
     destruct r as [l|]; [|intros H; inversion H; subst; left; exact Er].
     destruct (negb d); [intros H; inversion H; subst; left; exact Er|].
@@ -154,11 +160,19 @@ Proof.
   - destruct (forward s id _) as [s1 ok] eqn:Ef. destruct ok; intros H; inversion H; subst.
     + apply forward_spec in Ef. left. tauto.
     + apply forward_refused in Ef. subst. left; reflexivity.
+  - destruct (rlock s) as [[id g]|]; [|intros H; inversion H; subst; left; reflexivity].
+    destruct (forward s id _) as [s1 ok] eqn:Ef. destruct ok.
+    + apply forward_spec in Ef. destruct Ef as [_ [Hx [Hp [_ [_ [Hr _]]]]]].
+      destruct d; cbn [negb]; intros H; inversion H; subst; cbn.
+      * right. eexists. split; [rewrite Hr; reflexivity|]. split; [exact Hp|]. split; [apply next_entry_extends|exact Hx].
+      * left. exact Hr.
+    + apply forward_refused in Ef. subst s1. cbn [negb]. intros H; inversion H; subst. left; reflexivity.
+  - intros H; inversion H; subst; left; reflexivity.
 Qed.
 
 Lemma step_olog s e s' c : step s e = (s', c) -> olog s' = olog s.
 Proof.
-  destruct e as [id d|post| |post d|sent| |id post]; cbn [step].
+  destruct e as [id d|post| |post d|sent| |id post|post d| ]; cbn [step]; unfold restart.
   - destruct (grant s id) as [s1 r] eqn:Eg. apply grant_spec in Eg. destruct Eg as [_ [_ [Eo _]]].
     destruct r as [l|]; [|intros H; inversion H; subst; exact Eo].
     destruct (negb d); [intros H; inversion H; subst; exact Eo|].
@@ -178,6 +192,12 @@ Proof.
   - destruct (forward s id _) as [s1 ok] eqn:Ef. destruct ok; intros H; inversion H; subst.
     + apply forward_spec in Ef. tauto.
     + apply forward_refused in Ef. subst. reflexivity.
+  - destruct (rlock s) as [[id g]|]; [|intros H; inversion H; subst; reflexivity].
+    destruct (forward s id _) as [s1 ok] eqn:Ef. destruct ok.
+    + apply forward_spec in Ef. destruct Ef as [_ [_ [_ [_ [_ [_ Ho]]]]]].
+      destruct d; cbn [negb]; intros H; inversion H; subst; cbn; exact Ho.
+    + apply forward_refused in Ef. subst s1. cbn [negb]. intros H; inversion H; subst. reflexivity.
+  - intros H; inversion H; subst; reflexivity.
 Qed.
 
 Lemma step_inv s e s' c : Inv s -> step s e = (s', c) -> Inv s'.
@@ -297,9 +317,9 @@ Proof. cbn [step]. destruct (phalt s); [intros H; inversion H|reflexivity]. Qed.
 (* while halted the primary's log moves only by a forwarded transaction carrying the lock's id *)
 Lemma halted_log_moves_only_by_holder s e s' c id p :
   phalt s = Some (id, p) -> step s e = (s', c) -> plog s' <> plog s ->
-  (exists post d, e = ECommit post d /\ holds (rlock s) id = true) \/ (exists post, e = EForeign id post).
+  (exists post d, (e = ECommit post d \/ e = ECommitWal post d) /\ holds (rlock s) id = true) \/ (exists post, e = EForeign id post).
 Proof.
-  intros Hh. destruct e as [i d|post| |post d|sent| |i post]; cbn [step].
+  intros Hh. destruct e as [i d|post| |post d|sent| |i post|post d| ]; cbn [step]; unfold restart.
   - destruct (grant s i) as [s1 r] eqn:Eg. apply grant_spec in Eg. destruct Eg as [Ep _].
     destruct r as [l|]; [|intros H; inversion H; subst; congruence].
     destruct (negb d); [intros H; inversion H; subst; congruence|].
@@ -309,7 +329,7 @@ Proof.
   - rewrite Hh. intros H; inversion H; subst; congruence.
   - destruct (rlock s) as [[i g]|] eqn:Er; [|intros H; inversion H; subst; congruence].
     destruct (forward s i _) as [s1 ok] eqn:Ef. destruct ok.
-    + apply forward_spec in Ef. destruct Ef as [Hho _]. intros _ _. left. exists post, d. split; [reflexivity|].
+    + apply forward_spec in Ef. destruct Ef as [Hho _]. intros _ _. left. exists post, d. split; [left; reflexivity|].
       rewrite Hh in Hho. cbn [holds] in *. rewrite N.eqb_sym. exact Hho.
     + apply forward_refused in Ef. subst s1. cbn [negb]. intros H; inversion H; subst. congruence.
   - destruct (rlock s) as [[i g]|]; [|intros H; inversion H; subst; congruence].
@@ -321,6 +341,12 @@ Proof.
     + apply forward_spec in Ef. destruct Ef as [Hho _]. intros _. right. exists post.
       rewrite Hh in Hho. cbn [holds] in Hho. apply N.eqb_eq in Hho. subst. reflexivity.
     + apply forward_refused in Ef. subst. congruence.
+  - destruct (rlock s) as [[i g]|] eqn:Er; [|intros H; inversion H; subst; cbn; congruence].
+    destruct (forward s i _) as [s1 ok] eqn:Ef. destruct ok.
+    + apply forward_spec in Ef. destruct Ef as [Hho _]. intros _ _. left. exists post, d. split; [right; reflexivity|].
+      rewrite Hh in Hho. cbn [holds] in *. rewrite N.eqb_sym. exact Hho.
+    + apply forward_refused in Ef. subst s1. cbn [negb]. intros H; inversion H; subst. cbn. congruence.
+  - intros H; inversion H; subst; cbn; congruence.
 Qed.
 
 (* acknowledged and ordered: when the replica's commit returns, the primary has applied exactly that
@@ -416,6 +442,26 @@ Lemma replica_without_lock_cannot_write s post d : rlock s = None -> step s (ECo
 Proof. intros H. cbn [step]. rewrite H. reflexivity. Qed.
 
 (* every reachable state satisfies the invariant and is converged after the stream ran *)
+(* a restarted replica has forgotten the lock: it cannot write, although the primary may still be halted *)
+Lemma restart_forgets s post d :
+  let s1 := fst (step s ERestart) in
+  rlock s1 = None /\ plog s1 = plog s /\ phalt s1 = phalt s /\ rlog s1 = rlog s /\ step s1 (ECommit post d) = (s1, c_refused).
+Proof. cbn. repeat split; reflexivity. Qed.
+
+(* a WAL-mode commit is the commit followed, unless it was acknowledged, by a restart of the replica *)
+Lemma commit_wal_spec s post d :
+  step s (ECommitWal post d) =
+  (let '(s1, c) := step s (ECommit post d) in if c =? c_ok then (s1, c) else (restart s1, c)).
+Proof.
+  cbn [step]. destruct (rlock s) as [[id g]|]; [|reflexivity].
+  destruct (forward s id _) as [s1 ok]. destruct ok; cbn [negb]; [|reflexivity]. destruct d; reflexivity.
+Qed.
+Lemma commit_wal_acknowledged s post d s' : step s (ECommitWal post d) = (s', c_ok) -> step s (ECommit post d) = (s', c_ok).
+Proof.
+  rewrite commit_wal_spec. destruct (step s (ECommit post d)) as [s1 c]. destruct (N.eqb_spec c c_ok) as [->|Hn]; [trivial|].
+  intros H. inversion H. subst. contradiction.
+Qed.
+
 Theorem reachable_converged es : forall s0, Inv s0 -> rlog s0 = plog s0 -> olog s0 = plog s0 ->
   Inv (final s0 es) /\ rlog (final s0 es) = plog (final s0 es) /\ olog (final s0 es) = plog (final s0 es).
 Proof.
